@@ -476,6 +476,8 @@ let () =
       let head = String.sub line 0 i in
       let body = String.sub line (i + 1) (String.length line - i - 1) in
       let lines = impl_lines impl k in
+      List.iter (fun l -> if starts_with "H " l then
+                    Printf.printf "FAIL %d hang the call did not return within 2 s (%s)\n" k head) lines;
       if oracle "C02" then
         List.iter (fun l -> if starts_with "L " l then
                       Printf.printf "FAIL %d leak %s allocation(s) of the library still live after the call (%s)\n" k (after "L " l) head) lines;
